@@ -164,6 +164,9 @@ func (x *Exec) Run(c *Case) *Result {
 	if r.LockWaits > 0 {
 		x.Stats.Probes["mutex_contention"]++
 	}
+	if r.Adopted > 0 {
+		x.Stats.Probes["library_started_goroutines_scheduled"] += int64(r.Adopted)
+	}
 	if r.HoldsForced > 0 {
 		x.Stats.Probes["hold_released_because_awaited_task_blocked"]++
 	}
